@@ -188,3 +188,13 @@ def replay_file(ctx, path, mode, case_type, judge, explain):
         if code:
             print(explain(j))
     return 1 if bad else 0
+
+
+def known(ctx, feats):
+    """does an open finding of this property match the features?"""
+    for k in ctx.findings:
+        if k.get("property") == ctx.pid and k.get("status") == "open":
+            mt = k.get("match", {})
+            if mt and all(feats.get(a) == b for a, b in mt.items()):
+                return True
+    return False
